@@ -9,6 +9,10 @@ import (
 	"io"
 	"runtime"
 	"runtime/debug"
+	"sort"
+	"sync"
+	"sync/atomic"
+	"time"
 
 	"github.com/rs/zerolog"
 	. "verifharness/hlib"
@@ -250,4 +254,167 @@ func monitorRecycling(c *Ctx) {
 		c.Violate(Violation{Key: "handler-count-over-many-events", Monitor: "handler-once", Desc: fmt.Sprintf("500 failing events: ErrorHandler ran %d times, the destination after the failing one was called %d times", h, last),
 			Case: map[string]interface{}{"destinations": 3, "failing": 1, "events": 500}, Observed: []int{h, last}, Expected: []int{500, 500}})
 	}
+}
+
+// ---------------------------------------------------------------- handler histories
+
+type idFailWriter struct{ tag string }
+
+func (w idFailWriter) Write(p []byte) (int, error) {
+	// the error names the event: its "id" field value
+	i := bytes.Index(p, []byte(`"id":"`))
+	id := "?"
+	if i >= 0 {
+		rest := p[i+6:]
+		if j := bytes.IndexByte(rest, '"'); j >= 0 {
+			id = string(rest[:j])
+		}
+	}
+	return 0, fmt.Errorf("verif-%s-fail:%s", w.tag, id)
+}
+
+type shortWriter struct{}
+
+func (shortWriter) Write(p []byte) (int, error) { return len(p) / 2, nil }
+
+type okWriter struct{ n int64 }
+
+func (w *okWriter) Write(p []byte) (int, error) { atomic.AddInt64(&w.n, 1); return len(p), nil }
+
+// monitorHandlerHistories: "ErrorHandler is invoked exactly once for that event with
+// that error" over histories in which handler calls overlap: (a) the handler itself logs
+// through a fallback logger whose writer fails too (sequential nesting, depth <= 3);
+// (b) several goroutines log failing events at once while handler calls are in progress.
+// The expected multiset of reports is exact on every schedule, so the monitor cannot
+// raise a false alarm.
+func monitorHandlerHistories(c *Ctx) {
+	old := zerolog.ErrorHandler
+	defer func() { zerolog.ErrorHandler = old }()
+
+	// (a) nested
+	nestedCases := 0
+	for depth := 1; depth <= 3; depth++ {
+		for _, innerKind := range []string{"err", "short", "multi-short"} {
+			for rep := 0; rep < 3; rep++ {
+				var got []string
+				tail := &okWriter{}
+				loggers := make([]zerolog.Logger, depth+1)
+				loggers[0] = zerolog.New(zerolog.MultiLevelWriter(&okWriter{}, idFailWriter{"L0"}, tail))
+				for d := 1; d <= depth; d++ {
+					switch innerKind {
+					case "err":
+						loggers[d] = zerolog.New(idFailWriter{fmt.Sprintf("L%d", d)})
+					case "short":
+						loggers[d] = zerolog.New(zerolog.MultiLevelWriter(shortWriter{}))
+					default:
+						loggers[d] = zerolog.New(zerolog.MultiLevelWriter(&okWriter{}, shortWriter{}, tail))
+					}
+				}
+				cur := 0
+				zerolog.ErrorHandler = func(err error) {
+					got = append(got, fmt.Sprintf("d%d:%v", cur, err))
+					if cur < depth {
+						cur++
+						loggers[cur].Error().Str("id", fmt.Sprintf("n%d", cur)).Msg("forwarded")
+						cur--
+					}
+				}
+				var want []string
+				nev := 1 + rep
+				for k := 0; k < nev; k++ {
+					loggers[0].Info().Str("id", fmt.Sprintf("e%d", k)).Msg("m")
+					want = append(want, fmt.Sprintf("d0:verif-L0-fail:e%d", k))
+					for d := 1; d <= depth; d++ {
+						if innerKind == "err" {
+							want = append(want, fmt.Sprintf("d%d:verif-L%d-fail:n%d", d, d, d))
+						} else {
+							want = append(want, fmt.Sprintf("d%d:%v", d, io.ErrShortWrite))
+						}
+					}
+				}
+				nestedCases++
+				if fmt.Sprint(got) != fmt.Sprint(want) {
+					c.Violate(Violation{Key: "handler-not-once-when-handler-logs", Monitor: "handler-once",
+						Desc: fmt.Sprintf("ErrorHandler forwards each failure to a fallback logger whose writer fails as well (nesting depth %d, fallback failure %s): every failing event, nested ones included, must be reported exactly once with its own error", depth, innerKind),
+						Case: map[string]interface{}{"depth": depth, "fallback": innerKind, "events": nev}, Observed: got, Expected: want})
+				}
+			}
+		}
+	}
+	c.Res.ExtraCoverage["handler_nested_cases"] = nestedCases
+
+	// (b) concurrent
+	concCases := 0
+	for _, G := range []int{2, 4, 8} {
+		for _, shared := range []bool{true, false} {
+			const N = 40
+			var mu sync.Mutex
+			got := map[string]int{}
+			var inflight, maxInflight int32
+			zerolog.ErrorHandler = func(err error) {
+				n := atomic.AddInt32(&inflight, 1)
+				for {
+					m := atomic.LoadInt32(&maxInflight)
+					if n <= m || atomic.CompareAndSwapInt32(&maxInflight, m, n) {
+						break
+					}
+				}
+				time.Sleep(100 * time.Microsecond)
+				mu.Lock()
+				got[err.Error()]++
+				mu.Unlock()
+				atomic.AddInt32(&inflight, -1)
+			}
+			tail := &okWriter{}
+			sharedL := zerolog.New(zerolog.MultiLevelWriter(idFailWriter{"C"}, tail))
+			var wg sync.WaitGroup
+			for g := 0; g < G; g++ {
+				wg.Add(1)
+				go func(g int) {
+					defer wg.Done()
+					l := sharedL
+					if !shared {
+						l = zerolog.New(zerolog.MultiLevelWriter(idFailWriter{"C"}, tail))
+					}
+					for k := 0; k < N; k++ {
+						l.Warn().Str("id", fmt.Sprintf("g%dk%d", g, k)).Msg("x")
+					}
+				}(g)
+			}
+			wg.Wait()
+			concCases++
+			var missing, dup []string
+			for g := 0; g < G; g++ {
+				for k := 0; k < N; k++ {
+					key := fmt.Sprintf("verif-C-fail:g%dk%d", g, k)
+					switch n := got[key]; {
+					case n == 0:
+						missing = append(missing, key)
+					case n > 1:
+						dup = append(dup, key)
+					}
+					delete(got, key)
+				}
+			}
+			var extra []string
+			for k := range got {
+				extra = append(extra, k)
+			}
+			sort.Strings(extra)
+			c.Hist("handler_max_overlap", fmt.Sprint(atomic.LoadInt32(&maxInflight)))
+			if len(missing)+len(dup)+len(extra) > 0 || int(atomic.LoadInt64(&tail.n)) != G*N {
+				lim := func(s []string) []string {
+					if len(s) > 5 {
+						return s[:5]
+					}
+					return s
+				}
+				c.Violate(Violation{Key: "handler-not-once-under-concurrent-failures", Monitor: "handler-once",
+					Desc:     fmt.Sprintf("%d goroutines x %d failing events (shared logger: %v), handler takes 100us: %d events never reported, %d reported more than once, %d unknown reports; destination after the failing one saw %d of %d events", G, N, shared, len(missing), len(dup), len(extra), atomic.LoadInt64(&tail.n), G*N),
+					Case:     map[string]interface{}{"goroutines": G, "events_each": N, "shared_logger": shared},
+					Observed: map[string]interface{}{"missing": lim(missing), "duplicated": lim(dup), "extra": lim(extra)}, Expected: "every event reported exactly once"})
+			}
+		}
+	}
+	c.Res.ExtraCoverage["handler_concurrent_cases"] = concCases
 }
